@@ -473,6 +473,15 @@ type concScenario struct {
 	YieldP int        `json:"yieldp"`
 	Steps  []concStep `json:"steps"`
 	Down   bool       `json:"down,omitempty"` // end with the connection teardown while requests are in flight
+	// Expect: notifications the monitor demands (the scenario's construction guarantees that the
+	// subscription was registered before the write was issued); ignored by the worker.
+	Expect []concExpect `json:"expect,omitempty"`
+}
+
+type concExpect struct {
+	Sub string `json:"sub"` // operation ID of the subscription (hex)
+	Wr  string `json:"wr"`  // operation ID of the write (hex)
+	Key string `json:"key"` // written key (hex)
 }
 
 type concResult struct {
